@@ -24,7 +24,7 @@ func (p *c11) Exhaustive() bool { return true }
 
 var (
 	c11Forms = []string{"_self.m", "alias.m", "from-import m", "from-import m as n", "from-import m as <name of a registered function>"}
-	c11Uses  = []string{"print", "set", "concat", "argument-of-call", "in-loop", "in-capture", "twice-in-a-row", "in-loop-then-after", "import-computed-in-loop", "in-embedded-and-included-template", "in-block-of-extending-template"}
+	c11Uses  = []string{"print", "set", "concat", "argument-of-call", "in-loop", "in-capture", "twice-in-a-row", "in-loop-then-after", "import-computed-in-loop", "in-embedded-and-included-template", "in-block-of-extending-template", "in-top-level-set-of-extending-template"}
 )
 
 func (p *c11) Init(tier string, seed int64) {
@@ -174,7 +174,7 @@ func (p *c11) buildEnum(i int) (*Program, string) {
 	var main []gen.Node
 	ts := map[string]*gen.Template{}
 	if form == 0 {
-		if use != 10 {
+		if use != 10 && use != 11 {
 			main = append(main, m)
 		}
 	} else {
@@ -220,6 +220,21 @@ func (p *c11) buildEnum(i int) (*Program, string) {
 		}
 		main = append(main, setup...)
 		main = append(main, &gen.NBlock{Name: "body", Body: c11use(0, call)})
+		ts["lay"] = tpl("lay", tx("LAY("), &gen.NBlock{Name: "body", Body: []gen.Node{tx("lay-body")}}, tx(")"))
+		ts["main"] = tpl("main", main...)
+		return &Program{Templates: ts, Main: "main", Ctx: map[string]interface{}{}},
+			fmt.Sprintf("params=%d/args=%d/%s/%s", nparams, nargs, c11Forms[form], c11Uses[use])
+	}
+	if use == 11 {
+		// ... and called from an assignment at the top level of that template (the result is printed in a block):
+		// the macro body, and a callback in it, still belong to the template that defines the macro
+		main = append(main, &gen.NExtends{Tpl: str("lay")})
+		if form == 0 {
+			main = append(main, m)
+		}
+		main = append(main, setup...)
+		main = append(main, &gen.NSet{Name: "topr", X: call}, &gen.NSetCap{Name: "topc", Body: []gen.Node{tx("("), pr(call), tx(")")}},
+			&gen.NBlock{Name: "body", Body: []gen.Node{tx("<"), pr(nm("topr")), tx("|"), pr(nm("topc")), tx(">")}})
 		ts["lay"] = tpl("lay", tx("LAY("), &gen.NBlock{Name: "body", Body: []gen.Node{tx("lay-body")}}, tx(")"))
 		ts["main"] = tpl("main", main...)
 		return &Program{Templates: ts, Main: "main", Ctx: map[string]interface{}{}},
